@@ -552,6 +552,10 @@ class Interp:
             if "[in " not in str(e):
                 raise Unsupported("%s [in %s, statement near line %s]" % (e, fn.q, self.cur_line))
             raise
+        except AssertFail as e:
+            if "[in " not in str(e):
+                raise AssertFail("%s [in %s, statement near line %s]" % (e, fn.q, self.cur_line))
+            raise
         finally:
             self.depth -= 1
         return rv
@@ -1443,6 +1447,12 @@ class Interp:
                 return len(recv.items)
             if meth == "empty":
                 return len(recv.items) == 0
+            if meth == "insert" and len(args) == 1 and cname.startswith("std::set<"):
+                # an ordered set of pointers that the caller models as a sequence: insert = append unless present
+                v = self.ev(args[0], env)
+                if not any(x is v for x in recv.items):
+                    recv.items.append(v)
+                return None
             if meth == "push_back" or meth == "emplace_back":
                 v = self.ev(args[0], env)
                 recv.items.append(vcopy(v, recv.elem or _strip(args[0]).get("t", "")))
@@ -1704,7 +1714,7 @@ class Interp:
         if op == "=":
             v = self.ev(args[1], env)
             ref = self.lv(args[0], env)
-            ref.set(copy.deepcopy(v))
+            ref.set(typed_copy(v, _strip(args[0]).get("t", "")))      # member-wise: pointer members keep aliasing their pointee
             return v
         if op == "()":
             fv = self.ev(args[0], env)
